@@ -264,6 +264,12 @@ impl Store {
         self.pending.is_some()
     }
 
+    /// The sender went away in the middle of a chunked transmission: the terminal forgets the part
+    /// it has received (nothing was stored yet).
+    pub fn abort_transmission(&mut self) {
+        self.pending = None;
+    }
+
     /// all placements, anonymous ones reported once as (id, 0)
     pub fn placement_set(&self) -> BTreeSet<(u32, u32)> {
         let mut out = self.placements.clone();
